@@ -458,6 +458,9 @@ def main():
     for k, fs in sorted(known_hits.items()):
         print("KNOWN-FINDING: property=%s %s [%s] e.g. %s -> %s (%d input(s) this run)" % (
             pid, open_ids[k].get("what", k), k, json.dumps(fs[0].get("input")), fs[0].get("got"), hist.get("fail " + k, len(fs))))
+    for k in sorted(open_ids):
+        if k not in known_hits:
+            print("KNOWN-FINDING: property=%s %s [%s] (listed; not reproduced by this run's sample)" % (pid, open_ids[k].get("what", k), k))
     if unknown:
         # group by key, one replay per key
         seen = set()
